@@ -527,10 +527,10 @@ class CopyEqualsByKind(Contract):
     has_native = True
     native_shards = 4
     props = ("C12",)
-    bounded_scope = "one object per kind in {points, curve, surface, grid2d, geoimage, block model, octree, drillhole, airborne TEM pair, DC/IP pair, tipper pair} with data and non-default scalar attributes (flags flipped, drillhole cost / planning / end_of_hole beyond the last survey); copy into {same workspace, another workspace}; attribute-map attributes, geometry arrays, data values compared; then the copy is edited and the source re-compared (exhaustive over 11 kinds x 2 targets)"
+    bounded_scope = "one object per kind in {points, curve, surface, grid2d, geoimage, block model, octree, drillhole, airborne TEM pair, DC/IP pair, tipper pair} with data and non-default scalar attributes (flags flipped, drillhole cost / planning / end_of_hole beyond the last survey); copy into {same workspace, another workspace}; attribute-map attributes, geometry arrays, data values compared; then the copy is edited and the source re-compared (exhaustive over 12 kinds x 2 targets)"
 
     SKIP = {"uid", "property_groups", "last_focus", "clipping_ids: list | None", "name"}
-    ARRAYS = ("vertices", "cells", "surveys", "octree_cells", "u_cell_delimiters", "v_cell_delimiters", "z_cell_delimiters", "layers", "prisms", "centroids")
+    ARRAYS = ("vertices", "cells", "surveys", "octree_cells", "u_cell_delimiters", "v_cell_delimiters", "z_cell_delimiters", "layers", "prisms", "centroids", "n_cells", "n_vertices", "extent", "metadata")
 
     def native_cases(self, tier, rng):
         from contracts.copy_wf import KINDS
@@ -540,6 +540,7 @@ class CopyEqualsByKind(Contract):
                 continue
             for target in ("same", "other"):
                 yield {"kind": kind, "target": target}
+            yield {"kind": kind, "target": "same", "clear_cache": True}
 
     @classmethod
     def _describe(cls, ent):
@@ -576,9 +577,11 @@ class CopyEqualsByKind(Contract):
                 if case["kind"] == "drillhole":
                     obj.cost, obj.planning, obj.end_of_hole = 1234.5, "Ongoing", 150.0  # the hole goes on below its last survey station
                 before = self._describe(obj)
-                new = obj.copy(parent=other if case["target"] == "other" else None)
+                new = obj.copy(parent=other if case["target"] == "other" else None, **({"clear_cache": True} if case.get("clear_cache") else {}))
                 got = self._describe(new)
                 for k in before:
+                    if k in ("array:metadata", "array:extent") and case["kind"] in ("tem", "dcip", "tipper"):
+                        continue  # a linked copy records its own partner (C20's subject); compared only for "the source is unchanged"
                     if before[k] != got.get(k):
                         return f"the copy of a {case['kind']} differs from its source in {k}: {got.get(k)!r} instead of {before[k]!r} ({case})"
                 if self._describe(obj) != before:
@@ -595,6 +598,23 @@ class CopyEqualsByKind(Contract):
                         if isinstance(v, np.ndarray) and v.dtype.kind == "f" and len(v):
                             c.values = v + 1000.0
                     new.allow_delete = not new.allow_delete
+
+                    def scribble(node):  # nested records of the copy's metadata are edited in place
+                        if isinstance(node, dict):
+                            for k in list(node):
+                                if isinstance(node[k], (dict, list)):
+                                    scribble(node[k])
+                                elif isinstance(node[k], (int, float)) and not isinstance(node[k], bool):
+                                    node[k] = node[k] + 1000
+                        elif isinstance(node, list):
+                            for i_, v_ in enumerate(node):
+                                if isinstance(v_, (dict, list)):
+                                    scribble(v_)
+                                elif isinstance(v_, (int, float)) and not isinstance(v_, bool):
+                                    node[i_] = v_ + 1000
+
+                    if isinstance(new.metadata, dict):
+                        scribble(new.metadata)
                 except Exception as exc:
                     return f"editing the copy of a {case['kind']} failed: {type(exc).__name__}: {exc} ({case})"
                 after = self._describe(obj)
